@@ -15,7 +15,7 @@ func ZzC17() {
 	ctx := context.Background()
 	K := zz.Param("K", 4)
 	withDeleter := zz.Param("DELETER", 0) == 1
-	cfgIdx := []int{0, 3, 1, 2} // batch 1 / plain first, then batch 64 / context-aware, ...
+	cfgIdx := []int{4, 5, 2, 0} // large caches first: batch 1 / plain, batch 64 / context-aware, ...
 	cfg := zzCfgsQuick[cfgIdx[zz.Choice("cfg", zz.Param("CFGS", 4))]]
 	d := zzNewMemDS()
 	s := zzOpen(d, cfg)
